@@ -857,9 +857,7 @@ private:
         {
           if (transit_event.logger_base->backtrace_storage)
           {
-            transit_event.logger_base->backtrace_storage->process(
-              [this](TransitEvent const& te, std::string_view thread_id, std::string_view thread_name)
-              { _dispatch_transit_event_to_sinks(te, thread_id, thread_name); });
+            _process_backtrace_storage(*transit_event.logger_base->backtrace_storage);
           }
         }
       }
@@ -901,9 +899,7 @@ private:
       if (transit_event.logger_base->backtrace_storage)
       {
         // process all records in backtrace for this logger and log them
-        transit_event.logger_base->backtrace_storage->process(
-          [this](TransitEvent const& te, std::string_view thread_id, std::string_view thread_name)
-          { _dispatch_transit_event_to_sinks(te, thread_id, thread_name); });
+        _process_backtrace_storage(*transit_event.logger_base->backtrace_storage);
       }
     }
     else if (transit_event.macro_metadata->event() == MacroMetadata::Event::Flush)
@@ -918,6 +914,29 @@ private:
 
       // We defer notifying the caller until after this function completes.
     }
+  }
+
+  /**
+   * Writes all the messages stored in the backtrace storage to the sinks and clears it
+   */
+  void _process_backtrace_storage(BacktraceStorage& backtrace_storage)
+  {
+    backtrace_storage.process(
+      [this](TransitEvent const& te, std::string_view thread_id, std::string_view thread_name)
+      {
+        // A sink that throws for one of the stored messages must not abort the loop: the remaining
+        // messages would not be written and, because the storage is cleared only after the loop,
+        // everything - including the messages already written - would be written again by the
+        // next flush. Report the error and carry on with the next message
+        QUILL_TRY { _dispatch_transit_event_to_sinks(te, thread_id, thread_name); }
+#if !defined(QUILL_NO_EXCEPTIONS)
+        QUILL_CATCH(std::exception const& e) { _options.error_notifier(e.what()); }
+        QUILL_CATCH_ALL()
+        {
+          _options.error_notifier(std::string{"Caught unhandled exception."});
+        } // clang-format on
+#endif
+      });
   }
 
   /**
